@@ -239,7 +239,7 @@ def concrete_sv(values=None, hname='well'):
     values = values or {}
     Hm = c08.HESSIANS[hname]
     base = {'est_0': 0.75, 'est_1': -1.25, 'est_2': 2.5, 'init_ll': -120.5, 'null_ll': -150.25, 'final_ll': -80.125, 'N': 200.0,
-            'gradnorm': 0.001, 'g_0': 0.0001, 'g_1': -0.0002, 'g_2': 0.0003}
+            'gradnorm': 0.001, 'NOBS': 200.0, 'g_0': 0.0001, 'g_1': -0.0002, 'g_2': 0.0003}
 
     def sv(n):
         if n.startswith('h_'):
